@@ -502,6 +502,18 @@ def catalogue(big=False):
                                {"r": ref("USE", "r"), "o": ref("MK", "s")})], "TOP", {}))
 
     # 16. projection of a struct field through a two-dimensional array of structs
+    # 14e. a typed map whose keys differ between the forks of the enclosing mapped pipeline, and one
+    #      literal that holds two outputs of the call mapped over it (each a map with that fork's keys)
+    P.append(program("nest_map_keys_differ_two_outs", [],
+                     [stage("MK", "int x", "int a, int b", {"a": echo("x"), "b": const(7)}),
+                      S_echo("SHOW", "map<int>[]", "what", "seen")],
+                     [pipeline("INNER", "map<int> m", "map<int>[] seen",
+                               [call("MK", binds={"x": split(self_("m"))}, mode="map"),
+                                call("SHOW", binds={"what": mro.arrx(ref("MK", "a"), ref("MK", "b"))})],
+                               {"seen": ref("SHOW", "seen")}),
+                      pipeline("TOP", "", "map<int>[][] o",
+                               [call("INNER", binds={"m": split(lit([{"x": 1, "y": 2}, {"x": 3, "y": 4, "z": 5}]))}, mode="array")],
+                               {"o": ref("INNER", "seen")})], "TOP", {}))
     P.append(program("proj2d", [struct("PT", "int x, int y")],
                      [S_const("G", "PT[][] grid", {"grid": [[{"x": 1, "y": 2}, {"x": 3, "y": 4}], [{"x": 5, "y": 6}]]}),
                       S_echo("E", "int[][]", "xs", "ys")],
